@@ -203,29 +203,64 @@ func c17(c *Ctx) {
 		isCand := func(t *ir.Term, field string) bool {
 			return t.Op == "field:"+field && t.Has(func(x *ir.Term) bool { return x.Op == "field:Fans" })
 		}
-		// acceptance = store into the entry's SysfsPath
-		var accept []*ssa.Store
+		// terms are built with parameters resolved to the (unique) caller's arguments, so that the entry and
+		// the candidate keep their identity inside helpers of the binding function (matchesChannel(entry, cand),
+		// adoptDetectedFanConfig(entry, cand))
+		tb := ir.NewTB(c.P.IsRepoFunc, c.P.FuncKey)
+		tb.ParamCallers = c.StaticCallers
+		// the binding function and the helpers of its package it calls (two levels)
+		scope := []*ssa.Function{fn}
+		inScope := map[*ssa.Function]bool{fn: true}
+		for depth := 0; depth < 2; depth++ {
+			for _, f := range append([]*ssa.Function{}, scope...) {
+				Calls(f, func(cc ssa.CallInstruction) {
+					if st := ir.Callee(cc).Static; st != nil && load_FuncPkgPath(st) == PkgHwmon && len(st.Blocks) > 0 && !inScope[st] && len(c.StaticCallers(st)) == 1 {
+						inScope[st] = true
+						scope = append(scope, st)
+					}
+				})
+			}
+		}
+		// acceptance = store into the entry's SysfsPath (in the binding function or in such a helper)
+		var acceptStores []*ssa.Store
 		stores := map[string]*ssa.Store{}
-		Instrs(fn, func(ins ssa.Instruction) {
-			if st, ok := ins.(*ssa.Store); ok {
-				if fa, ok := st.Addr.(*ssa.FieldAddr); ok {
-					_, name, _ := ir.FieldName(fa)
-					at := tb.Of(fa, nil)
-					if len(at.Args) == 1 && isCfg(at.Args[0], name) {
-						stores[name] = st
-						if name == "SysfsPath" {
-							accept = append(accept, st)
+		for _, sf := range scope {
+			Instrs(sf, func(ins ssa.Instruction) {
+				if st, ok := ins.(*ssa.Store); ok {
+					if fa, ok := st.Addr.(*ssa.FieldAddr); ok {
+						_, name, _ := ir.FieldName(fa)
+						at := tb.Of(fa, nil)
+						if len(at.Args) == 1 && isCfg(at.Args[0], name) {
+							stores[name] = st
+							if name == "SysfsPath" {
+								acceptStores = append(acceptStores, st)
+							}
 						}
 					}
 				}
+			})
+		}
+		// the acceptance as seen in the binding function's own control flow: the store, or the call of the helper holding it
+		var accept []ssa.Instruction
+		for _, st := range acceptStores {
+			if st.Parent() == fn {
+				accept = append(accept, st)
+				continue
 			}
-		})
+			Calls(fn, func(cc ssa.CallInstruction) {
+				if cal := ir.Callee(cc).Static; cal != nil && inScope[cal] {
+					if cal == st.Parent() || c.staticallyCalls(cal, func(f *ssa.Function) bool { return f == st.Parent() }, 2) {
+						accept = append(accept, cc)
+					}
+				}
+			})
+		}
 		if len(accept) == 0 {
 			c.R.Undecided("R-match", fk, fk, c.P.Pos(fn.Pos()), "no store to the entry's SysfsPath found (anchor unresolved)")
 		} else {
 			isAccept := func(ins ssa.Instruction) bool {
 				for _, a := range accept {
-					if ins == ssa.Instruction(a) {
+					if ins == a {
 						return true
 					}
 				}
@@ -252,8 +287,58 @@ func c17(c *Ctx) {
 			}
 			for name, est := range clauses {
 				est := est
+				// a boolean predicate helper establishes the clause when it can return true only across an
+				// edge (or with a result) that establishes it
+				helperOK := map[*ssa.Function]bool{}
+				var helperEstablishes func(h *ssa.Function) bool
+				var estEdge func(b *ssa.BasicBlock, si int, pf []ir.Fact) bool
+				helperEstablishes = func(h *ssa.Function) bool {
+					if v, done := helperOK[h]; done {
+						return v
+					}
+					helperOK[h] = false
+					if len(h.Blocks) == 0 || h.Signature.Results().Len() != 1 {
+						return false
+					}
+					okAll := true
+					ir.Search{TrackBools: true, StopEdgeF: estEdge}.Reach([]ir.Point{{Block: h.Blocks[0]}}, func(ins ssa.Instruction, via *ssa.BasicBlock) {
+						rt, isRet := ins.(*ssa.Return)
+						if !isRet {
+							return
+						}
+						rv := ir.ResultVia(rt, 0, via)
+						if k, isConst := ir.ConstBool(rv); isConst {
+							if k {
+								okAll = false
+							}
+							return
+						}
+						if !est(ir.CondFacts(rv, true)) {
+							okAll = false
+						}
+					})
+					helperOK[h] = okAll
+					return okAll
+				}
+				estEdge = func(b *ssa.BasicBlock, si int, pf []ir.Fact) bool {
+					fs := append(append([]ir.Fact{}, ir.EdgeFacts(b, si)...), pf...)
+					if est(fs) {
+						return true
+					}
+					for _, f := range fs {
+						if f.Bool == nil || !f.Truth {
+							continue
+						}
+						if call, isCall := f.Bool.(*ssa.Call); isCall {
+							if h := ir.Callee(call).Static; h != nil && inScope[h] && helperEstablishes(h) {
+								return true
+							}
+						}
+					}
+					return false
+				}
 				reached := false
-				ir.Search{StopEdge: func(b *ssa.BasicBlock, si int) bool { return est(ir.EdgeFacts(b, si)) }}.Reach([]ir.Point{{Block: fn.Blocks[0]}}, func(ins ssa.Instruction, _ *ssa.BasicBlock) {
+				ir.Search{TrackBools: true, StopEdgeF: estEdge}.Reach([]ir.Point{{Block: fn.Blocks[0]}}, func(ins ssa.Instruction, _ *ssa.BasicBlock) {
 					if isAccept(ins) {
 						reached = true
 					}
@@ -321,7 +406,17 @@ func c17(c *Ctx) {
 			for _, a := range accept {
 				starts = append(starts, ir.After(a))
 			}
-			if rets := returnsFrom(starts, ir.Search{StopInstr: setsPaths}); len(rets) > 0 {
+			var rets []retVia
+			for _, st := range acceptStores {
+				inner := returnsFrom([]ir.Point{ir.After(st)}, ir.Search{StopInstr: setsPaths})
+				if st.Parent() == fn {
+					rets = append(rets, inner...)
+				} else if len(inner) > 0 {
+					// the helper returns without recomputing: the caller must do it after the call
+					rets = append(rets, returnsFrom(starts, ir.Search{StopInstr: setsPaths})...)
+				}
+			}
+			if len(rets) > 0 {
 				c.R.Bad("R-default", fk+"|paths-recomputed", fk, c.P.Pos(rets[0].ret.Pos()), "after accepting a device the function can return without recomputing the three sysfs paths (pwm/enable paths would not follow the pwm channel)")
 			} else {
 				c.R.Ok("R-default", fk+"|paths-recomputed", fk, c.P.Pos(accept[0].Pos()), "the three sysfs paths are recomputed after acceptance (and after pwmChannel defaulting) on every path to a return")
@@ -329,7 +424,11 @@ func c17(c *Ctx) {
 			// the pwmChannel defaulting must precede the path computation
 			if st := stores["PwmChannel"]; st != nil {
 				late := false
-				ir.Search{}.Reach(starts, func(ins ssa.Instruction, _ *ssa.BasicBlock) {
+				lateStarts := starts
+				if st.Parent() != fn && len(acceptStores) > 0 && acceptStores[0].Parent() == st.Parent() {
+					lateStarts = []ir.Point{ir.After(acceptStores[0])}
+				}
+				ir.Search{}.Reach(lateStarts, func(ins ssa.Instruction, _ *ssa.BasicBlock) {
 					if setsPaths(ins) {
 						// is the PwmChannel store reachable after this call?
 						ir.Search{}.Reach([]ir.Point{ir.After(ins)}, func(i2 ssa.Instruction, _ *ssa.BasicBlock) {
@@ -674,6 +773,61 @@ func c17(c *Ctx) {
 	}
 	c.R.Ok("R-nocrash", "summary", "binding code", "-", sprintf("%d functions of the start-up binding code inspected for unchecked map-lookup dereference / assertion / panic", len(scope)))
 	c.ruleHoles("R-holes")
+	c.ruleSliceAlias("R-alias")
+}
+
+// ruleSliceAlias: the start-up code does not filter a device list in place. `out := in[:0]; out = append(out, x)`
+// writes into the backing array of `in`; when `in` is a parameter (or is read again later) the caller's list is
+// silently rearranged - chips vanish from the list the next binding step receives, depending on their order.
+func (c *Ctx) ruleSliceAlias(rule string) {
+	n, nbad := 0, 0
+	for _, fn := range c.P.Funcs {
+		if p := load_FuncPkgPath(fn); (p != PkgHwmon && p != PkgInternal) || len(fn.Blocks) == 0 {
+			continue
+		}
+		// does v derive (through phis and appends) from a re-slice of a parameter of slice type?
+		var fromParamSlice func(v ssa.Value, depth int, seen map[ssa.Value]bool) *ssa.Slice
+		fromParamSlice = func(v ssa.Value, depth int, seen map[ssa.Value]bool) *ssa.Slice {
+			v = ir.Resolve(v)
+			if depth > 8 || seen[v] {
+				return nil
+			}
+			seen[v] = true
+			switch x := v.(type) {
+			case *ssa.Slice:
+				if _, isSlice := x.X.Type().Underlying().(*types.Slice); !isSlice {
+					return nil
+				}
+				if _, isParam := ir.Resolve(x.X).(*ssa.Parameter); isParam {
+					return x
+				}
+				return fromParamSlice(x.X, depth+1, seen)
+			case *ssa.Phi:
+				for _, e := range x.Edges {
+					if s := fromParamSlice(e, depth+1, seen); s != nil {
+						return s
+					}
+				}
+			case *ssa.Call:
+				if ir.Callee(x).Builtin == "append" && len(x.Call.Args) > 0 {
+					return fromParamSlice(x.Call.Args[0], depth+1, seen)
+				}
+			}
+			return nil
+		}
+		Calls(fn, func(cc ssa.CallInstruction) {
+			call, ok := cc.(*ssa.Call)
+			if !ok || ir.Callee(call).Builtin != "append" || len(call.Call.Args) == 0 {
+				return
+			}
+			n++
+			if sl := fromParamSlice(call.Call.Args[0], 0, map[ssa.Value]bool{}); sl != nil {
+				nbad++
+				c.R.Bad(rule, c.FK(fn)+"|append", c.FK(fn), c.P.Pos(call.Pos()), "append to a re-slice of the parameter list ("+c.P.Pos(sl.Pos())+"): the elements are written into the caller's backing array, so the list the caller goes on to use (the next binding step) is rearranged / loses entries depending on the order of the devices")
+			}
+		})
+	}
+	c.R.Ok(rule, "summary", PkgInternal, "-", sprintf("%d append sites in the discovery / instantiation packages, %d into a re-slice of a parameter", n, nbad))
 }
 
 // ruleHoles: the device lists handed to the binding code contain no nil element. The binders dereference every
